@@ -1001,6 +1001,15 @@ func checkRenderedLabels(str string, m *Model, innerPrefixMode bool) error {
 }
 
 func checkC19(c *Case, s *Stats) error {
+	if c.Gen == "concurrent-round" {
+		// a replay: the outcome depends on the schedule, so the round is repeated
+		for rep := 0; rep < 40; rep++ {
+			if err := independentReaders(c.Block, s); err != nil {
+				return err
+			}
+		}
+		return nil
+	}
 	m := newModel(c)
 	fresh, st, err := c.load()
 	if err != nil {
